@@ -77,6 +77,11 @@ def normalize_answer(ans):
     if ans and ans[0] == "error":
         # (kind, message, start offset, line)
         msg = ans[1]
+        if msg == "Assertion failed" and len(ans) > 4 and ans[4]:
+            # a `run` request reports assertion failures as "Assertion failed"
+            # with the real message in the stack text; :resume reports the
+            # message itself
+            msg = ans[4].split("\n")[0]
         if msg.startswith("Exception: "):
             msg = msg[len("Exception: "):]
         return ("error", msg, ans[2], ans[3])
